@@ -24,12 +24,15 @@ from sa.report import Check  # noqa: E402
 DEPENDS = {
     "C01": ["C02", "C03", "C04", "C05", "C06", "C12"],   # lint verdict = reading + covered set + attribution + globs + inventory + ignore blocks
     "C04": ["C05"],                                      # which annotation applies is decided by the glob matcher
+    "C06": ["C02", "C03", "C04"],                        # which identifiers are USED: covered files x attributed expressions
     "C07": ["C02", "C20"],                               # what annotate writes is read back by the tag reader; notices are built by C20's builder
     "C09": ["C07"],                                      # information survives a run only if what is written is read back
     "C10": ["C07", "C08"],                               # the second run must find and reproduce what the first one wrote
     "C13": ["C03"],                                      # lint-file = lint on the covered files among F
+    "C15": ["C03"],                                      # annotate --recursive touches exactly the covered files
     "C17": ["C05"],                                      # the converted globs are interpreted by the REUSE.toml matcher
     "C18": ["C02", "C03", "C04"],                        # SPDX document = covered files x attributed information
+    "C19": ["C06"],                                      # `download --all` supplies exactly what lint reports missing
 }
 
 
